@@ -226,7 +226,7 @@ End ExploreSound.
 
 (* ---------- the instance: the machine built from the GENERATED effect sequences ---------- *)
 Definition gstep : cstate -> clabel -> cstate :=
-  cstep gen_p_retry gen_p_reroute gen_p_kill_head gen_p_finish_ok gen_p_finish_err gen_pop_before_claim gen_poll_exhausted.
+  cstep gen_p_retry gen_p_reroute gen_p_kill_head gen_p_finish_ok gen_p_finish_err gen_pop_before_claim gen_recovery_continues gen_poll_exhausted.
 
 Definition R : list cstate := fst (cexplore gstep (150 * 100) inits inits (cindex inits)).
 Definition G : list cstate := good_of gstep R.
